@@ -29,9 +29,11 @@ def build_query(decls_extra, assumptions, goal, ufs):
 
     terms = list(assumptions) + [goal]
     consts = consts_of(terms)
-    text = "".join(str(t) for t in terms)
+    text = "".join(str(t) for t in terms) + " ".join(sort_str(x) for x in consts.values())
     out = [PRELUDE]
     for d in decls_extra:
+        if "declare-datatypes ((Val" in d and not ("VInt" in text or "VStr" in text or "VNone" in text or " Val" in text):
+            continue
         out.append(d)
     for name, (args, res) in sorted(ufs.items()):
         if re.search(r"\(%s[ )]" % re.escape(name), text):
